@@ -658,3 +658,115 @@ def verdict_gates(ck, prog, config, clause, table):
               if viol is None else viol.msg + ': the verdict is positive without the digests having been compared',
               vf.file, viol.node.line if viol else vf.line, path=viol.path if viol else None, config=config)
     return nv
+
+
+# ------------------------------------------------------------------ the computed digest reaches the comparison untouched
+_WRITERS_ARG1 = ('memset', 'memcpy', 'memmove', 'strcpy', 'strncpy', 'snprintf', 'sprintf', 'strcat', 'strncat',
+                 '__builtin___memset_chk', '__builtin___memcpy_chk', '__builtin___memmove_chk')
+_COMPARES = ('memcmp', 'CRYPTO_memcmp', 'timingsafe_bcmp', 'timingsafe_memcmp', 'bcmp')
+
+
+def digest_intact(ck, prog, config, clause, funcs, exception_field='comp_length'):
+    """R2.digest-intact: in a verdict function the buffer returned by hash_finalize() is what the comparison sees.
+    Between the finalisation and the comparison nothing may write into that buffer - except on the edge
+    `<chunk>->comp_length == 0` (nothing is stored for the entry: the index holds the all-zero placeholder and the
+    computed digest of the empty input is replaced by it).  Any other overwrite makes the verdict independent of the
+    stored bytes for the inputs that take that edge."""
+    from .common import FactRule
+    n = 0
+    for fname in funcs:
+        vf = prog.need_func(fname)
+
+        class Intact(FactRule):
+            name = 'R2.digest-intact'
+
+            def __init__(s, prog_, fn):
+                FactRule.__init__(s, prog_, fn)
+                s.finals = 0
+                s.compares = 0
+
+            def on_assign(s, c2, lhs, rhs, op, value, ts):
+                if c2.fn is not s.fn:
+                    return ts
+                l = strip(lhs)
+                r = strip(rhs) if rhs is not None else None
+                while r is not None and r.k == 'cast' and r.a:
+                    r = strip(r.a[0])
+                if l is not None and l.k == 'var' and op == '=' and r is not None and r.k == 'call' and \
+                        callee_name(r) == 'hash_finalize':
+                    s.finals += 1
+                    return frozenset(x for x in ts if not (isinstance(x, tuple) and x[0] == 'fin')) | \
+                        frozenset([('fin', l.decl, l.op)])
+                # a store through the digest pointer
+                if l is not None and l.k in ('idx', 'un'):
+                    root = l
+                    while root is not None and root.k in ('idx', 'un', 'cast', 'paren') and root.a:
+                        root = strip(root.a[0])
+                    if root is not None and root.k == 'bin' and root.a:
+                        root = strip(root.a[0])
+                    for x in ts:
+                        if isinstance(x, tuple) and x[0] == 'fin' and root is not None and root.k == 'var' and \
+                                root.decl == x[1] and 'nothing-stored' not in ts:
+                            s.violate(c2, 'overwritten', 'the computed digest %s is written before it is compared'
+                                      % x[2], inst='store')
+                return ts
+
+            def on_edge(s, c2, node, label, refined, ts):
+                if c2.fn is not s.fn:
+                    return ts
+                op, l, r = atom_cmp(node.e, label)
+                if last_field(l) == exception_field and const_value(r) == 0:
+                    if op == '==':
+                        ts = ts | frozenset(['nothing-stored'])
+                    elif op in ('!=', '>'):
+                        ts = ts - frozenset(['nothing-stored'])
+                return ts
+
+            def on_call(s, c2, call, ts):
+                if c2.fn is not s.fn:
+                    return ts
+                nm = callee_name(call)
+                fins = [x for x in ts if isinstance(x, tuple) and x[0] == 'fin']
+                if not fins:
+                    return ts
+
+                def is_digest(a):
+                    a = strip(a)
+                    while a is not None and a.k in ('cast', 'paren') and a.a:
+                        a = strip(a.a[0])
+                    if a is not None and a.k == 'bin' and a.op in ('+', '-') and a.a:
+                        a = strip(a.a[0])
+                    return a is not None and a.k == 'var' and any(a.decl == x[1] for x in fins)
+                if nm in _COMPARES or (nm and any(g.name == nm and orfold_compare(s.prog, g)
+                                                  for g in s.prog.lib_funcs())):
+                    if any(is_digest(a) for a in call.a[1:]):
+                        s.compares += 1
+                        return frozenset(x for x in ts if not (isinstance(x, tuple) and x[0] == 'fin'))
+                    return ts
+                written = []
+                if nm in _WRITERS_ARG1:
+                    if len(call.a) > 1 and is_digest(call.a[1]):
+                        written.append(1)
+                elif nm and nm != 'free':
+                    cands = [g for g in s.prog.lib_funcs() if g.name == nm]
+                    if len(cands) == 1:
+                        for i, p in enumerate(cands[0].params):
+                            if i + 1 < len(call.a) and is_digest(call.a[i + 1]) and (p.t or '').rstrip().endswith('*') \
+                                    and 'const' not in (p.t or ''):
+                                written.append(i + 1)
+                if written and 'nothing-stored' not in ts:
+                    s.violate(c2, 'overwritten', '%s() writes into the computed digest %s before it is compared, on a path '
+                              'that is not the nothing-stored case (%s == 0): for the inputs that take this path the '
+                              'verdict no longer depends on the bytes that were hashed' % (nm, fins[0][2], exception_field),
+                              inst='%s' % nm)
+                return ts
+        r = Intact(prog, vf)
+        run_rule(prog, vf, r)
+        ck.require(r.finals >= 1 and r.compares >= 1, '%s: no hash_finalize() result compared byte-wise' % fname)
+        n += r.compares
+        ck.ob(clause, 'R2.digest-intact', fname, 'finalize->compare', not r.violations,
+              'the buffer returned by hash_finalize() reaches the comparison unmodified (or replaced by zeros only when '
+              'nothing is stored for the entry)' if not r.violations else r.violations[0].msg, vf.file,
+              r.violations[0].node.line if r.violations else vf.line,
+              path=r.violations[0].path if r.violations else None, config=config)
+    return n
